@@ -5,8 +5,20 @@ import (
 	"os"
 	"runtime"
 	"sync/atomic"
+	"syscall"
 	"time"
 )
+
+// cpuNanos returns the CPU time (user+system) this process has consumed.
+func cpuNanos() int64 {
+	var ru syscall.Rusage
+	if err := syscall.Getrusage(syscall.RUSAGE_SELF, &ru); err != nil {
+		return 0
+	}
+	return ru.Utime.Nano() + ru.Stime.Nano()
+}
+
+var wdCPU int64 // CPU time at the arming instant
 
 // The watchdog guards against a simulated goroutine that never reaches its
 // next decision point (a busy loop or an un-instrumented blocking call in
@@ -26,13 +38,17 @@ var (
 // Arm starts the watchdog for one run.
 func Arm(what string) {
 	wdWhat.Store(what)
+	atomic.StoreInt64(&wdCPU, cpuNanos())
 	atomic.StoreInt64(&wdArmed, time.Now().UnixNano())
 	if atomic.CompareAndSwapInt32(&wdStarted, 0, 1) {
 		go func() {
 			for {
 				time.Sleep(500 * time.Millisecond)
 				a := atomic.LoadInt64(&wdArmed)
-				if a != 0 && time.Now().UnixNano()-a > int64(WatchdogLimit) {
+				// a run is stuck only if it has also burnt CPU for half that
+				// long: a machine stall or a frozen VM advances the wall clock
+				// but not the CPU time, and must not look like a busy loop
+				if a != 0 && time.Now().UnixNano()-a > int64(WatchdogLimit) && cpuNanos()-atomic.LoadInt64(&wdCPU) > int64(WatchdogLimit)/2 {
 					buf := make([]byte, 1<<20)
 					n := runtime.Stack(buf, true)
 					w, _ := wdWhat.Load().(string)
